@@ -38,6 +38,17 @@ def consistency_oracle(sc, out):
                 new = [p for p in after if p["cred_id"] == res["ok"]["auth_data"]["acd"]["cred_id"]]
                 if len(new) != 1:
                     fails.append("registered credential is not in the store afterwards")
+                else:
+                    # the record that was accepted is the one the response describes: bound to the request's RP ID (exactly), with the
+                    # attested public key and a private scalar, and with the counter the authenticator data reports
+                    acd = res["ok"]["auth_data"]["acd"]
+                    if new[0]["rp_id"] != op["req"]["rp"]["id"]:
+                        fails.append("registration for RP %s succeeded, the record the store accepted is bound to %s"
+                                     % (bytes.fromhex(op["req"]["rp"]["id"]).decode("utf-8", "replace"), bytes.fromhex(new[0]["rp_id"]).decode("utf-8", "replace")))
+                    if new[0]["key"]["x"] != acd["x"] or new[0]["key"]["y"] != acd["y"] or not new[0]["key"]["d"]:
+                        fails.append("the saved record does not hold the key pair whose public half was attested")
+                    if (new[0]["counter"] or 0) != (res["ok"]["auth_data"]["counter"] or 0):
+                        fails.append("the saved record's counter %s is not the one the authenticator data reports (%s)" % (new[0]["counter"], res["ok"]["auth_data"]["counter"]))
                 others_b = [x for x in b] if not one_slot else []
                 others_a = canon([p for p in after if p["cred_id"] != res["ok"]["auth_data"]["acd"]["cred_id"]])
                 if not one_slot and others_a != others_b:
@@ -118,6 +129,14 @@ def single_faults(run):
                                             user={"script": [{"presence": True, "verification": uv}] * 2},
                                             ops=[{"op": "make_credential", "req": mc_req(rng, rk=True, uv=uv, ext=ext)},
                                                  {"op": "get_assertion", "req": ga_req(rng, allow=[cid], uv=uv, ext=prf_ext_ga(first=b"\x07" * 32))}]))
+    # RP IDs in spellings a CTAP2 caller may send (mixed case, non-ASCII, trailing dot): the saved record is bound to the RP ID as given,
+    # and a later assertion under the same spelling finds it
+    for rp in ("Future.1Password.COM", "EXAMPLE.com", "b\u00fccher.example", "example.com."):
+        for store in ("ref", "option", "memory"):
+            for rk in (False, True):
+                scs.append(scenario(store_kind=store, config={"counter": True}, user={"script": [{"presence": True, "verification": True}] * 2},
+                                    ops=[{"op": "make_credential", "req": mc_req(rng, rp=rp, rk=rk, uv=True)},
+                                         {"op": "get_assertion", "req": ga_req(rng, rp=rp, allow=None if store != "memory" else [bytes(16)], uv=True)}]))
     if run.tier != "quick":
         for kind, content, op in shapes:
             for a1 in range(0, 5):
@@ -217,3 +236,6 @@ def check(run):
     # executor): the ceremony must wait - never answer as if nothing were stored, never skip a write
     import c19
     run.cov["held_lock"] = c19.check_held_locks(run, ("C07",))
+    # the store changes while a ceremony waits in the consent prompt (record replaced / removed by another session): an assertion
+    # is returned only if the store then holds its counter value
+    run.cov["prompt_actions"] = ceremony.check_prompt_actions(run, ("C07",))
